@@ -379,6 +379,21 @@ class RenderContext:
             finally:
                 self.loops.pop()
 
+    @contextmanager
+    def iterations(self, length: int) -> Iterator[RenderContext]:
+        """Count _length_ repetitions of a block towards the loop iteration limit.
+
+        For tags that repeat a block without pushing a `ForLoop` on to the loop
+        stack, like `tablerow` and `render`/`include` with a bound array.
+        """
+        self.raise_for_loop_limit(length)
+        carry = self.loop_iteration_carry
+        self.loop_iteration_carry = carry * length
+        try:
+            yield self
+        finally:
+            self.loop_iteration_carry = carry
+
     def parentloop(self) -> Union[Undefined, object]:
         """Return the last ForLoop object from the loop stack."""
         try:
